@@ -32,6 +32,11 @@ resumed because it is paused) waits on nothing, and cancel() on it must have no 
 handed it a result goes on with its own list.  wait_k and chn_k exclude each other (firing d_k from
 d_{k+1}'s running chain while d_k returns d_{k+1} is C01's re-entrant corner).
 
+Debugging: the statement does not depend on Deferred.debug, so a block of the histories (all 13
+two-level configurations, two three-level, two pause/chainDeferred and two re-entrant-canceller
+ones, one action shorter; three pruned explorations) is run again under defer.setDebugging(True)
+with the same oracle; the process-global flag is restored afterwards.
+
 Re-entrant cancellers: a canceller may fire the next or the previous Deferred of the chain (an
 AlreadyCalledError there is caught inside the canceller and logged; a Deferred in state S swallows
 it), call cancel() on the next one, or fire its own Deferred and then raise.  The model runs those
@@ -71,6 +76,7 @@ RULE = ("all histories of length L (every shorter one is a prefix and is checked
 ASSUMPTIONS = [
     "trusted base: the 3-state model plus FIFO chaining rules in this module (about 90 lines)",
     "a raising canceller may either propagate (Deferred stays unfired) or be swallowed (CancelledError); the statement does not say",
+    "the debugging-on block covers shorter histories than the debugging-off enumeration",
     "the pruned exploration hashes called/_suppressAlreadyCalled/paused/result kind/queue length of the real Deferreds plus the model state",
 ]
 SHARDS = {"quick": 4, "thorough": 16}
@@ -80,7 +86,8 @@ FLOORS = {"steps_compared": 1000000, "already_called_errors": 100000, "swallowed
           "histories_3level": 100000, "histories_2level": 100000, "cancel_forwarded_three_levels": 100,
           "reentrant_canceller_calls": 10000, "canceller_nested_already_called": 1000,
           "histories_reentrant_cancellers": 50000, "histories_pause_chaindeferred": 30000,
-          "chaindeferred_pairs_run": 10000, "cancel_no_effect_fired_paused": 5000}
+          "chaindeferred_pairs_run": 10000, "cancel_no_effect_fired_paused": 5000,
+          "histories_with_debugging_on": 30000}
 READY = True
 
 KINDS = ("none", "cb", "eb", "nothing", "raises")
@@ -148,6 +155,7 @@ class Boom(Exception):
 
 _TW = {}
 _CNT = {}
+_DEBUGGING = [False]   # defer.setDebugging(True) is in force for the histories being run
 
 
 def _bump(name):
@@ -442,7 +450,7 @@ class World:
              "expected_events": self.exp, "observed_events": self.log,
              "expected_called_result": model_state, "observed_called_result": real_state,
              "model_states": list(self.ms), "model_waiting": list(self.waiting),
-             "cancel_forwarded_levels": self.fwd}
+             "cancel_forwarded_levels": self.fwd, "debugging": _DEBUGGING[0]}
         if not ok_exc:
             if want_exc == "AlreadyCalledError":
                 key, what = "second-result-accepted", "a further callback/errback on a fired Deferred did not raise AlreadyCalledError"
@@ -583,32 +591,55 @@ def run(ctx):
     ctx.extra["enumerated"] = ["%d-level chain%s, %d configurations, length %d" % (
         len(split(c[0])[1]), " + pause/unpause/chainDeferred" if c[0][0] in (EXT, LITE) else "", len(c), L) for c, L in spaces]
     ctx.extra["explored_length"] = deep
-    n = 0
-    k = 0
-    for cfgs, length in spaces:
-        for cfg in cfgs:
-            ctx.seen("configs", "/".join(cfg))
-            first = True
-            cnt = 0
-            ext, kinds = split(cfg)
-            for h in histories(len(kinds), length, ext):
-                k += 1
-                if k % ctx.nshards != ctx.shard:
-                    continue
-                w = run_history(ctx, cfg, h, "enum")
-                n += 1
-                cnt += 1
-                if n % 5000 == 0:
-                    gc.collect()
-                if first and cnt > 200 and len(ctx.samples) < 4:
-                    first = False
-                    ctx.sample({"config": cfg, "history": h, "last_events": w.log, "model": list(w.ms)})
-            ctx.count("histories_%dlevel" % len(kinds), cnt)
-            if ext:
-                ctx.count("histories_pause_chaindeferred", cnt)
-            if cfg in CONFIGS3_RE:
-                ctx.count("histories_reentrant_cancellers", cnt)
-    ctx.count("enumerated_histories", n)
+    from twisted.internet import defer
+
+    was_debugging = defer.getDebugging()
+    defer.setDebugging(False)
+    tot = [0, 0]  # histories run, running index for sharding
+
+    def enumerate_spaces(spaces, debugging):
+        for cfgs, length in spaces:
+            for cfg in cfgs:
+                ctx.seen("configs", "/".join(cfg) + (" (debugging on)" if debugging else ""))
+                first = True
+                cnt = 0
+                ext, kinds = split(cfg)
+                for h in histories(len(kinds), length, ext):
+                    tot[1] += 1
+                    if tot[1] % ctx.nshards != ctx.shard:
+                        continue
+                    w = run_history(ctx, cfg, h, "enum")
+                    tot[0] += 1
+                    cnt += 1
+                    if tot[0] % 5000 == 0:
+                        gc.collect()
+                    if first and cnt > 200 and len(ctx.samples) < 4:
+                        first = False
+                        ctx.sample({"config": cfg, "history": h, "last_events": w.log, "model": list(w.ms), "debugging": debugging})
+                ctx.count("histories_%dlevel" % len(kinds), cnt)
+                if ext:
+                    ctx.count("histories_pause_chaindeferred", cnt)
+                if cfg in CONFIGS3_RE:
+                    ctx.count("histories_reentrant_cancellers", cnt)
+                if debugging:
+                    ctx.count("histories_with_debugging_on", cnt)
+
+    enumerate_spaces(spaces, False)
+    # the statement holds whatever Deferred.debug is: a block of histories again with defer.setDebugging(True)
+    # (process-global flag, restored afterwards), same oracle
+    short = 4 if deep <= 12 else 5
+    _DEBUGGING[0] = True
+    defer.setDebugging(True)
+    try:
+        enumerate_spaces([(CONFIGS2, short), (CONFIGS3[:2], short), (CONFIGS2_EXT[:2], short - 1), (CONFIGS3_RE[:2], short - 1)], True)
+        if ctx.shard == ctx.nshards - 1:
+            for cfg in [("none", "none"), ("nothing", "cb"), ("none", "none", "nothing")]:
+                explore.dfs(ctx, lambda cfg=cfg: World(ctx, cfg), 10, shard_depth=0)
+                ctx.count("explorations_with_debugging_on")
+    finally:
+        defer.setDebugging(False)
+        _DEBUGGING[0] = False
+    ctx.count("enumerated_histories", tot[0])
     ctx.exhaustive = None
     # deeper, with state pruning (E1)
     # (the reachable state space saturates from any first action, so splitting one configuration's
@@ -629,9 +660,19 @@ def run(ctx):
     ctx.count("gc_logged_unhandled_failures", _tw()["logged"][0])
     if not complete:
         ctx.exhaustive = False
+    defer.setDebugging(was_debugging)
 
 
 def replay(ctx, w):
+    from twisted.internet import defer
+
     x = w["witness"]
-    run_history(ctx, tuple(x["config"]), tuple(x["history"]), "replay")
+    was = defer.getDebugging()
+    defer.setDebugging(bool(x.get("debugging")))
+    _DEBUGGING[0] = bool(x.get("debugging"))
+    try:
+        run_history(ctx, tuple(x["config"]), tuple(x["history"]), "replay")
+    finally:
+        defer.setDebugging(was)
+        _DEBUGGING[0] = False
     _flush(ctx)
